@@ -575,18 +575,36 @@ def model_steps(m: dict[str, Any]) -> list[dict[str, Any]]:
     return out
 
 
+SINK_MARK = "request_id"
+
+
+def sink_dlog(lg: dict[str, Any]) -> dict[str, Any]:
+    """An init log as the WIRE item it is: the sink stamps `vgi_rpc.request_id` on its log batches (the in-loop collector
+    does not), so a sink log is another — larger — IPC batch than a process() log with the same level / text / extras.
+    The model's size function is per item; the item therefore carries the stamp (clients strip it: `svcgen._ev_log`)."""
+    return c01.dlog({**lg, "extra": {**lg.get("extra", {}), SINK_MARK: "sink"}})
+
+
+def mev(e: list[Any]) -> list[Any]:
+    """model event → canonical event, without the request-id stamp (as `svcgen._ev_log` strips it from real logs)"""
+    x = c01.model_ev(e)
+    if x[0] == "log":
+        x = [x[0], x[1], x[2], [kv for kv in x[3] if kv[0] != SINK_MARK]]
+    return x
+
+
 def model_args(m: dict[str, Any], ref: dict[str, Any], cap0: int | None, cap: int | None) -> dict[str, Any]:
     hdr = bool(m.get("header"))
     return {"cap0": cap0, "cap": cap, "pre": ref["pre"], "sentinel": 0,
-            "init_logs": [] if hdr else [c01.dlog(x) for x in m["init_logs"]], "init_sizes": [] if hdr else ref["init_sizes"],
+            "init_logs": [] if hdr else [sink_dlog(x) for x in m["init_logs"]], "init_sizes": [] if hdr else ref["init_sizes"],
             "steps": model_steps(m), "sizes": ref["sizes"]}
 
 
 def model_obs(m: dict[str, Any], o: dict[str, Any]) -> dict[str, Any]:
-    logs = [c01.model_ev(e) for e in o["logs"]]
+    logs = [mev(e) for e in o["logs"]]
     if m.get("header"):
         logs = [["log", x["level"], x["text"], sorted([list(i) for i in x.get("extra", {}).items()])] for x in m["init_logs"]] + logs
-    return {"logs": logs, "datas": [c01.model_ev(e) for e in o["datas"]], "rest": [c01.model_ev(e) for e in o["rest"]]}
+    return {"logs": logs, "datas": [mev(e) for e in o["datas"]], "rest": [mev(e) for e in o["rest"]]}
 
 
 # ------------------------------------------------------------------------------------------ the reference measurement
@@ -823,7 +841,7 @@ def check_resume(ctx: Any, m: dict[str, Any], desc: dict[str, Any], ref: dict[st
         a = model_args(m, ref, w.cap, w.cap)
         a["pos"] = pos
         r = ctx.driver.call("C11.resume", a)
-        mevs = [c01.model_ev(e) for e in r["evs"]]
+        mevs = [mev(e) for e in r["evs"]]
         if mode in ("seek_nwt", "resume_nwt"):
             if c01.obs_of(mevs) != got:
                 ctx.mismatch(case, c01.obs_of(mevs), got, "resumed observation vs C11.resume")
